@@ -9,27 +9,28 @@ namespace {
 C08CPlan plan;
 struct M
 {
-  int link[C08C_MAXN];     // node the member handle points at, -1 none
-  bool created[C08C_MAXN];
-  int destroyed[C08C_MAXN];
-  int head, keep;          // -1: empty
+  int link[C08C_MAXN + 1];     // node the member handle points at, -1 none
+  bool created[C08C_MAXN + 1];
+  int destroyed[C08C_MAXN + 1];
+  bool gone[C08C_MAXN + 1];     // the model has released the node
+  int head, keep, zroot;   // -1: empty
   bool rooted;
   int step, kind;
   bool in_step;
   bool finished;
 } m;
-enum { P_MOVE_ADVANCE = 0, P_COPY_ADVANCE, P_RAW_ADVANCE, P_KEPT_NODE, P_SELF_ASSIGN, P_LAST_REF_BY_ASSIGN };
+enum { P_MOVE_ADVANCE = 0, P_COPY_ADVANCE, P_RAW_ADVANCE, P_KEPT_NODE, P_SELF_ASSIGN, P_LAST_REF_BY_ASSIGN, P_CYCLE };
 const char *probe_names[] = {"advanced_by_move_assignment", "advanced_by_copy_assignment", "advanced_by_raw_pointer_assignment", "node_held_by_a_second_handle",
-                             "self_assignment_executed", "assignment_released_the_object_holding_its_source", nullptr};
+                             "self_assignment_executed", "assignment_released_the_object_holding_its_source", "ownership_cycle_broken_by_assigning_to_a_member_handle", nullptr};
 const char *no_faults[] = {nullptr};
 
 void reset()
 {
   memset(&plan, 0, sizeof plan);
   memset(&m, 0, sizeof m);
-  for (int i = 0; i < C08C_MAXN; i++)
+  for (int i = 0; i <= C08C_MAXN; i++)
     m.link[i] = -1;
-  m.head = m.keep = -1;
+  m.head = m.keep = m.zroot = -1;
 }
 void do_plan(int)
 {
@@ -38,33 +39,56 @@ void do_plan(int)
   for (int k = 0; k < C08C_MAXN; k++)
     plan.move[k] = (int)sim_plan(3);
   plan.self_at = sim_plan(4) == 0 ? (int)sim_plan((uint32_t)plan.n) : -1;
+  plan.cycle = sim_plan(5) == 0;
+  if (plan.cycle) {
+    plan.n = 1 + (int)sim_plan(4);  // 1: a node that owns itself
+    plan.break_at = (int)sim_plan((uint32_t)plan.n);
+    plan.break_kind = (int)sim_plan(5);
+    sim_probe(P_CYCLE);
+  }
   if (plan.keep >= 0)
     sim_probe(P_KEPT_NODE);
 }
+// reference-counting semantics: a node exists as long as an outside handle or the member handle of an existing node
+// refers to it (so the nodes of a cycle keep each other, which reachability from outside would not say)
 void reach(bool *r)
 {
-  for (int i = 0; i < C08C_MAXN; i++)
-    r[i] = false;
-  int roots[2] = {m.head, m.keep};
-  for (int k = 0; k < 2; k++)
-    for (int j = roots[k]; j >= 0 && !r[j]; j = m.link[j])
-      r[j] = true;
+  for (int i = 0; i <= C08C_MAXN; i++)
+    r[i] = m.created[i] && !m.gone[i];
+  for (bool changed = true; changed;) {
+    changed = false;
+    for (int i = 0; i <= C08C_MAXN; i++) {
+      if (!r[i])
+        continue;
+      int c = (m.head == i) + (m.keep == i) + (m.zroot == i);
+      for (int j = 0; j <= C08C_MAXN; j++)
+        if (r[j] && m.link[j] == i)
+          c++;
+      if (c == 0 && m.rooted) {
+        r[i] = false;
+        changed = true;
+      }
+    }
+  }
+  for (int i = 0; i <= C08C_MAXN; i++)
+    if (m.created[i] && !r[i] && m.rooted)
+      m.gone[i] = true;  // once released, always released
 }
 long long expected_count(int id)
 {
-  bool r[C08C_MAXN];
+  bool r[C08C_MAXN + 1];
   reach(r);
-  long long c = (m.head == id) + (m.keep == id);
-  for (int i = 0; i < plan.n; i++)
+  long long c = (m.head == id) + (m.keep == id) + (m.zroot == id);
+  for (int i = 0; i <= plan.n; i++)
     if (r[i] && m.link[i] == id)
       c++;
   return c;
 }
 void settle(const char *when)
 {
-  bool r[C08C_MAXN];
+  bool r[C08C_MAXN + 1];
   reach(r);
-  for (int i = 0; i < plan.n; i++)
+  for (int i = 0; i <= plan.n; i++)
     if (m.created[i] && !r[i] && m.destroyed[i] == 0)
       sim_fail("C08:chain:not-destroyed-at-last-release", "node %d is no longer referenced %s but was not destroyed", i, when);
 }
@@ -72,7 +96,7 @@ void check()
 {
   if (!m.finished && !sim_failed())
     sim_fail("C08:chain:scenario-did-not-finish", "the walk over the chain did not reach its end");
-  for (int i = 0; i < plan.n; i++)
+  for (int i = 0; i <= plan.n; i++)
     if (m.created[i] && m.destroyed[i] != 1 && !sim_failed())
       sim_fail("C08:chain:destroy-count", "node %d destroyed %d times", i, m.destroyed[i]);
 }
@@ -86,6 +110,11 @@ int stuck(int deadlock, char *cls, size_t n)
 }
 void describe(char *buf, size_t n)
 {
+  if (plan.cycle) {
+    static const char *bk[] = {"a handle to another object", "a temporary handle to another object", "another object's plain pointer", "nullptr", "an empty handle"};
+    snprintf(buf, n, "{\"cycle_of_nodes\": %d, \"member_handle_of_node\": %d, \"is_assigned\": \"%s\"}", plan.n, plan.break_at, bk[plan.break_kind]);
+    return;
+  }
   int k = snprintf(buf, n, "{\"nodes\": %d, \"node_also_held_from_outside\": %d, \"self_assignments_before_step\": %d, \"advance\": [", plan.n, plan.keep, plan.self_at);
   static const char *nm[] = {"head = head->next", "head = std::move(head->next)", "head = head->next.ptr"};
   for (int i = 0; i < plan.n; i++)
@@ -114,6 +143,27 @@ void c08c_roots(int head, int keep)
   m.head = head;
   m.keep = keep;
   m.rooted = true;
+}
+void c08c_zroot(int z)
+{
+  sim_event(816, (uint64_t)(unsigned)z, 0);
+  m.zroot = z;
+}
+void c08c_drop_head_begin(void)
+{
+  sim_event(817, 0, 0);
+  m.step = 0;
+  m.kind = 7;
+  m.in_step = true;
+  m.head = -1;
+}
+void c08c_break_begin(int node, int to)
+{
+  sim_event(818, (uint64_t)node, (uint64_t)(unsigned)to);
+  m.step = 1;
+  m.kind = 6;
+  m.in_step = true;
+  m.link[node] = to;  // the member handle now refers to `to`; the objects that only the cycle kept alive go
 }
 void c08c_step_begin(int step, int kind)
 {
@@ -152,7 +202,7 @@ void c08c_node_destroyed(int id)
     // moving a handle onto itself may leave it empty; it then references nothing and its object goes, which is consistent
     m.head = -1;
   }
-  bool r[C08C_MAXN];
+  bool r[C08C_MAXN + 1];
   reach(r);
   if (r[id])
     sim_fail("C08:chain:destroyed-while-referenced", "node %d destroyed in step %d although a handle still reaches it", id, m.step);
@@ -168,7 +218,7 @@ void c08c_step_end(int step, int head_id)
     // settle() below demands that the reference it held was released
     m.head = -1;
   }
-  if (head_id != m.head && m.kind != 5)
+  if (head_id != m.head && m.kind != 5 && m.kind != 6 && m.kind != 7)
     sim_fail("C08:chain:handle-points-elsewhere", "after step %d the handle points at node %d, expected node %d", step, head_id, m.head);
   settle("after the assignment");
   if (step == 100 || m.head < 0)
@@ -178,7 +228,7 @@ void c08c_step_end(int step, int head_id)
 }
 int c08c_alive(int id)
 {
-  bool r[C08C_MAXN];
+  bool r[C08C_MAXN + 1];
   reach(r);
   return r[id] && m.destroyed[id] == 0;
 }
